@@ -1,0 +1,48 @@
+//go:build verif
+
+package sqlite
+
+import (
+	"os"
+	"path/filepath"
+
+	"github.com/XSAM/otelsql"
+	semconv "go.opentelemetry.io/otel/semconv/v1.26.0"
+)
+
+// VerifOpenDatabaseWithDriver is OpenDatabase with the database/sql driver name
+// chosen by the caller. It exists only in builds with the "verif" tag: the
+// external verification harness registers a wrapping driver that fails or
+// interrupts chosen statements and commits. The setup steps are the same as in
+// OpenDatabase.
+func VerifOpenDatabaseWithDriver(dbPath string, driverName string) (*sqliteDatabase, error) {
+	openDatabaseMu.Lock()
+	defer openDatabaseMu.Unlock()
+
+	storagePath := filepath.Dir(dbPath)
+	err := os.MkdirAll(storagePath, os.ModePerm)
+	if err != nil {
+		return nil, err
+	}
+	writeableDb, err := otelsql.Open(driverName, dbPath+"?mode=rwc&_busy_timeout=5000&_txlock=immediate",
+		otelsql.WithAttributes(semconv.DBSystemSqlite),
+	)
+	if err != nil {
+		return nil, err
+	}
+	err = setupWriteableDatabase(writeableDb)
+	if err != nil {
+		writeableDb.Close()
+		return nil, err
+	}
+
+	readOnlyDb, err := otelsql.Open(driverName, dbPath+"?mode=ro&_busy_timeout=5000&_txlock=deferred",
+		otelsql.WithAttributes(semconv.DBSystemSqlite),
+	)
+	if err != nil {
+		writeableDb.Close()
+		return nil, err
+	}
+	sqliteDatabase := sqliteDatabase{readOnlyDb, writeableDb}
+	return &sqliteDatabase, nil
+}
